@@ -342,3 +342,21 @@ ENTRIES += [
     V("C16-v-eps-flip", "C16", (PQ, "jr.uniform(epsilon_key, shape=()) < self.epsilon,", "self.epsilon > jr.uniform(epsilon_key, shape=()),")),
     V("C16-v-select", "C16", (DC, "masked_logits = jnp.where(mask, self.logits, -jnp.inf)", "masked_logits = jnp.where(~mask, -jnp.inf, self.logits)")),
 ]
+
+BE = "lerax/env/base_env.py"
+
+ENTRIES += [
+    # ---------------------------------------------------------------- C01
+    M("C01-reward-post-reset", "C01", "C01.1", (BE, "        reward = self.reward(state, action, next_state, key=reward_key)\n        terminal = self.terminal(next_state, key=terminal_key)\n        truncate = self.truncate(next_state)\n        info = self.transition_info(state, action, next_state)\n\n        state = lax.cond(\n            terminal | truncate, lambda: self.initial(key=reset_key), lambda: next_state\n        )\n",
+       "        terminal = self.terminal(next_state, key=terminal_key)\n        truncate = self.truncate(next_state)\n        info = self.transition_info(state, action, next_state)\n\n        new_state = lax.cond(\n            terminal | truncate, lambda: self.initial(key=reset_key), lambda: next_state\n        )\n        reward = self.reward(state, action, new_state, key=reward_key)\n        state = new_state\n")),
+    M("C01-truncate-prestate", "C01", "C01.2", (BE, "        truncate = self.truncate(next_state)\n        info", "        truncate = self.truncate(state)\n        info")),
+    M("C01-reset-terminal-only", "C01", "C01.3", (BE, "            terminal | truncate, lambda: self.initial(key=reset_key), lambda: next_state", "            terminal, lambda: self.initial(key=reset_key), lambda: next_state")),
+    M("C01-branches-swapped", "C01", "C01.3", (BE, "            terminal | truncate, lambda: self.initial(key=reset_key), lambda: next_state", "            terminal | truncate, lambda: next_state, lambda: self.initial(key=reset_key)")),
+    M("C01-obs-of-successor", "C01", "C01.4", (BE, "        observation = self.observation(state, key=key)\n\n        return state, observation, reward, terminal, truncate, info", "        observation = self.observation(next_state, key=key)\n\n        return state, observation, reward, terminal, truncate, info")),
+    M("C01-reset-obs-other-state", "C01", "C01.5", (BE, "        observation = self.observation(state, key=observation_key)\n        info = self.state_info(state)", "        observation = self.observation(self.initial(key=observation_key), key=observation_key)\n        info = self.state_info(state)")),
+    M("C01-timelimit-init-nonzero", ["C01", "C13"], ["C01.7", "C13.4"], (WM, "return TimeLimitState(step_count=0, env_state=env_state)", "return TimeLimitState(step_count=1, env_state=env_state)")),
+    M("C01-reset-same-key", "C01", "C01.3", (BE, "            terminal | truncate, lambda: self.initial(key=reset_key), lambda: next_state", "            terminal | truncate, lambda: self.initial(key=transition_key), lambda: next_state")),
+    M("C01-override-step", "C01", "C01.6", (WM, "    def state_info(self, state: IdentityState[StateType]) -> dict:", "    def step(self, state, action, *, key):\n        return super().step(state, action, key=key)[::-1]\n\n    def state_info(self, state: IdentityState[StateType]) -> dict:")),
+    M("C01-gym-adapter-stale-state", ["C01", "C13"], ["C01.8", "C13.7"], (CG, "        self.state, obs, rew, term, trunc, info = self.env.step(", "        _, obs, rew, term, trunc, info = self.env.step(")),
+    V("C01-v-or-order", "C01", (BE, "            terminal | truncate, lambda: self.initial(key=reset_key), lambda: next_state", "            truncate | terminal, lambda: self.initial(key=reset_key), lambda: next_state")),
+]
